@@ -44,6 +44,11 @@ type (
 		Pats   [][]Expr
 	}
 	EIte struct{ C, A, B Expr }
+	EMethod struct {
+		X    Expr
+		Name string
+		Args []Expr
+	}
 	ELet struct {
 		Name string
 		V, B Expr
@@ -66,6 +71,7 @@ func (ESlice) exprNode()  {}
 func (EQuant) exprNode()  {}
 func (EIte) exprNode()    {}
 func (ELet) exprNode()    {}
+func (EMethod) exprNode() {}
 
 // ---------------------------------------------------------------------------------------
 // Lexer
@@ -240,6 +246,12 @@ func (p *parser) postfix(e Expr) Expr {
 				p.next()
 				args := p.args()
 				e = ECall{id.Name + "." + t.v, args}
+				continue
+			}
+			if p.isOp("(") {
+				// method call on an expression: x.f.M(args) -- pure interface methods only
+				p.next()
+				e = EMethod{e, t.v, p.args()}
 				continue
 			}
 			e = EField{e, t.v}
@@ -437,7 +449,7 @@ type Contract struct {
 	Notes    []string
 }
 
-var headRe = regexp.MustCompile(`^(func|trusted func|loop|pred|fun|lemma|axiom|ghost var|ghost field|chan|guarded|sort|assume-call|callsite|implements)\s+(.*)$`)
+var headRe = regexp.MustCompile(`^(func|trusted func|loop|pred|fun|lemma|axiom|ghost var|ghost field|chan|guarded|sort|assume-call|callsite|implements|immutable)\s+(.*)$`)
 var clauseRe = regexp.MustCompile(`^(requires|ensures|invariant|modifies|records|reveals|nopanic|pure|opaque|induction|note)\b\s*(.*)$`)
 
 // splitParams splits "a int, b []T" at top-level commas into name/type pairs.
@@ -654,7 +666,7 @@ func ParseContractFile(path, pkgPath string) ([]*Contract, error) {
 				if len(f) > 1 {
 					cur.Sort = strings.Join(f[1:], " ")
 				}
-			case "chan", "guarded":
+			case "chan", "guarded", "immutable":
 				cur.Name = rest
 			case "implements":
 				// implements FUNC as IFACEMETHOD
